@@ -9,7 +9,9 @@ GRAPH_STREAM = dict(
     env=dict(quick=dict(VERIF_DIGRAPH_N=3, VERIF_OPSEQ_LEN=2, VERIF_RANDOM=400, VERIF_BIGRANDOM=400),
              thorough=dict(VERIF_DIGRAPH_N=4, VERIF_OPSEQ_LEN=3, VERIF_RANDOM=6000, VERIF_BIGRANDOM=6000)),
     # which op lines matter to which property when only the correspondence (not a monitor) breaks
-    prop_ops=dict(C05=r'^g (detect|add |addd |new)', C06=r'^g (topo|addd |add |new|detect)', C19=None),
+    # C06: Kahn's sort reads the derived fields (Dependents, degrees): `Synced` is a hypothesis of topo_valid, so a
+    # divergence of those queries (dependents, roots, leaves, node) breaks C06's tie as well
+    prop_ops=dict(C05=r'^g (detect|add |addd |new)', C06=r'^g (topo|addd |add |new|detect|rm|dependents|roots|leaves|node)', C19=None),
     rule='graph op sequences: corpus, every digraph on <=N nodes (deferred and immediate construction), every op '
          'sequence of length L over 3 identities with all queries after each step, random sequences over a pool of 7 '
          '(type,key,group) identities, random 7-node DAGs/cyclic graphs; a scenario is non-trivial when it has at least one edge',
